@@ -260,7 +260,7 @@ Fixpoint tree_toks (filt : bool) (p : bytes) (s : stree) : list tok :=
   end.
 
 (* DirectoryTreeStructureSignatureTask::inputsAvailable: the file type of the directory itself when input 0 is a
-   DirectoryContents value, else its encoded bytes; per child the file name, the file type of an ExistingInput (else
+   DirectoryContents or ExistingInput value, else its encoded bytes; per child the file name, the file type of an ExistingInput (else
    the encoded bytes), the nested signature or the nil constant.
    [mk]: what is kept of a mode.  Repaired code: mode & S_IFMT (0170000); before the repair: the whole mode. *)
 Definition s_ifmt : N := 61440.
@@ -268,7 +268,10 @@ Definition type_bits (m : N) : N := N.land m s_ifmt.
 
 Definition struct_dir_tok (mk : N -> N) (filt : bool) (s : stree) : tok :=
   match s with
-  | SNode ni _ _ => if filt then TBytes (dir_value_enc filt s) else TNum (mk (fi_mode ni))
+  | SNode ni si _ =>
+    if filt then (if isdir si then TBytes (dir_value_enc filt s)     (* FilteredDirectoryContents: encoded bytes *)
+                  else TNum (mk (fi_mode si)))                        (* ExistingInput (a non-directory): its type *)
+    else TNum (mk (fi_mode ni))                                       (* DirectoryContents: its type *)
   | SMissing => TBytes (dir_value_enc filt s)
   end.
 
